@@ -48,4 +48,10 @@ META = {
   "note": "Trusts kit/tok and the harness's knowledge of what it sent; a 5 s silence on an in-memory pipe is interpreted as the server waiting for input.",
   "technique": "property-based testing (rapid) with reference framing, canary payloads and recording stub backend",
  },
+ "C06": {
+  "text": "Fault enumeration plus input search: every byte offset of each generated valid transcript is used as a disconnect point (clean close and reset), generated / mutated / raw inputs are fed under three ways of ending the connection, and a deterministic family of deep-nesting inputs runs in a child process with a capped stack; each connection is judged by clean-up invariants (no panic, goroutines gone, session closed once, literal limits). Exhaustive per transcript, sampling over transcripts and inputs.",
+  "design_ref": "DESIGN.md 3/C06",
+  "note": "Observes goroutines through runtime.Stack filtered to imapserver frames and the server's end of the in-memory pipe; the 10 s liveness bound is ~10^5 times the normal latency.",
+  "technique": "fault enumeration over disconnect offsets + property-based input generation/mutation (rapid) with clean-up invariants; child-process recursion probe",
+ },
 }
